@@ -374,3 +374,69 @@ def check_result_part(ctx, rep, rule='S-result'):
                'operation) otherwise, both computed after in_out/other_in_out were written; found %s' % what,
                loc=b.loc(b.j['line_lo']), reason='dominance')
     rep.floor(rule, 'result cases', n, 2)
+
+
+# ------------------------------------------------------------------ the geometric atoms the tables are written over
+
+ISVERT = 'boolean::sweep_event::SweepEvent::<F>::is_vertical'
+ISABOVE = 'boolean::sweep_event::SweepEvent::<F>::is_above'
+
+
+def check_atom_models(ctx, rep, rule='T-atoms'):
+    """The tables treat is_vertical(e) as an atom; their meaning is checked here:
+    is_vertical(e) == (e has an other event and e.point.x == other.point.x, exactly).  (is_above is not used by the library;
+    is_below is checked against its model by O-antisym-event.)"""
+    import itertools
+    from sym import show, noepoch, strip_upd
+    import sym
+    b, ps = rep.explore(ctx, ISVERT, rule)
+    if b is not None:
+        rows = []
+        bad = []
+
+        def xeq(v):
+            """+1 for self.point.x == other.point.x, -1 for !=, 0 otherwise"""
+            x = strip_upd(v)
+            if x[0] == 'op' and x[1] == 'not':
+                return -xeq(x[2])
+            if x[0] == 'op' and x[1] in ('eq', 'ne') and len(x) == 4:
+                sa, sb = show(noepoch(x[2])), show(noepoch(x[3]))
+                own = [s for s in (sa, sb) if s.replace('*', '').replace('(', '').replace(')', '') == 'self.point.x']
+                oth = [s for s in (sa, sb) if 'other_event' in s and s.rstrip(')').endswith('.point.x') and 'Weak::upgrade' in s]
+                if len(own) == 1 and len(oth) == 1:
+                    return 1 if x[1] == 'eq' else -1
+            return 0
+
+        for p in ps:
+            if p.end != 'return':
+                continue
+            val = {}
+            for (v, c) in p.conds:
+                x = strip_upd(v)
+                s = show(noepoch(x))
+                if x[0] == 'discr' and 'Weak::upgrade' in s and 'other_event' in s:
+                    val['has'] = (c == ('eq', 1))
+                elif xeq(x):
+                    val['xeq'] = bool(c[1]) if xeq(x) > 0 else (not c[1])
+                else:
+                    bad.append(s[:80])
+            r = strip_upd(sym.simplify(sym.subst(p.ret, p.conds)))
+            if sym.is_const(r):
+                rows.append((val, bool(r[1])))
+            elif xeq(r):
+                for truth in (False, True):
+                    v2 = dict(val)
+                    v2['xeq'] = truth if xeq(r) > 0 else (not truth)
+                    rows.append((v2, truth))
+            else:
+                bad.append('returns ' + show(noepoch(r))[:80])
+        for s in sorted(set(bad)):
+            rep.ob(rule, 'is_vertical-modelled', False, 'is_vertical depends on `%s`; it must be exactly: other event present and '
+                   'self.point.x == other.point.x' % s, loc=b.loc(b.j['line_lo']), reason='cannot-tabulate')
+        for has, xe in itertools.product((False, True), repeat=2):
+            outs = set(r for (val, r) in rows if val.get('has', has) == has and val.get('xeq', xe) == xe)
+            exp = has and xe
+            rep.ob(rule, 'is_vertical:has_other=%d,same_x=%d' % (has, xe), outs == {exp},
+                   'is_vertical with other event present=%s and equal x=%s returns %s, must return %s' % (has, xe, sorted(outs), exp),
+                   loc=b.loc(b.j['line_lo']), reason='table-row')
+        rep.rows_compared += 4
